@@ -60,3 +60,20 @@ func outNS(o Obj) string {
 	n, _ := md["namespace"].(string)
 	return n
 }
+
+// chainNames: every name r has on its way through the layers (original, after each layer's affixes).
+func (t *Tree) chainNames(r *GenRes) map[string]bool {
+	out := map[string]bool{r.Name: true}
+	name := r.Name
+	if affixSkipKinds[r.Kind] {
+		return out
+	}
+	for li := r.Layer; li < len(t.Layers); li++ {
+		L := t.Layers[li]
+		name = L.Prefix + name
+		out[name] = true
+		name = name + L.Suffix
+		out[name] = true
+	}
+	return out
+}
